@@ -483,6 +483,7 @@ func (e *ssaEval) instr(fr *frame, ins ssa.Instruction) {
 		e.nalloc++
 		key := fmt.Sprintf("cell%d", e.nalloc)
 		set(x, sv{k: svAddr, s: key})
+		e.zeroMakeslice(x, key)
 	case *ssa.FieldAddr:
 		a := e.val(fr, x.X)
 		fld := x.X.Type().Underlying().(*types.Pointer).Elem().Underlying().(*types.Struct).Field(x.Field)
@@ -907,6 +908,9 @@ func (e *ssaEval) doCall(fr *frame, x *ssa.Call) sv {
 		if r, ok := e.call(x, args); ok {
 			return r
 		}
+	}
+	if r, ok := e.stdlibModel(x, args); ok {
+		return r
 	}
 	if r, ok := e.stringFunc(callName(x), args); ok {
 		return r
